@@ -591,6 +591,9 @@ func runC08(ctx *core.Ctx, pool *par.Pool) {
 		ovDepth = 6
 	}
 	runs = append(runs, bfsRun{pagedrv.CfgA, ovSeed, ovDepth})
+	// the same on the file with a pre-sized meta area, one page already overwritten (an overwrite mapping exists)
+	ovSeedB := seed{"full+overflow-bodies", append(append([]O{}, seedFull.Ops...), O{K: pagedrv.OBegin}, O{K: pagedrv.OWrite, A: -1}, O{K: pagedrv.OCommit})}
+	runs = append(runs, bfsRun{pagedrv.CfgB, ovSeedB, ovDepth - 1})
 	// failures while an open lowers the maximum size and returns free pages at the end of the file (second open-time transaction)
 	shrinkSeed := seed{"grown-free-tail", []O{{K: pagedrv.OReopenWith, A: 128}, {K: pagedrv.OBegin}, {K: pagedrv.OAlloc, A: 100}, {K: pagedrv.OWriteAll}, {K: pagedrv.OCommit},
 		{K: pagedrv.OBegin}, {K: pagedrv.OFreeRun, A: 40, B: 60}, {K: pagedrv.OCommit}}}
